@@ -3,3 +3,5 @@ import MtailVerif.Props.C16
 #print axioms MtailVerif.C16.observed_history_exact
 #print axioms MtailVerif.FileStream.step_inv
 #print axioms MtailVerif.C16.stopped_history_exact
+#print axioms MtailVerif.C16.buffer_shape
+#print axioms MtailVerif.C16.every_read_is_offered_room
